@@ -233,6 +233,13 @@ def z_fmod(a, b):
 
 def real_uf(name):
     f = sym.uf(name, z3.RealSort(), z3.RealSort())
+    if name == "sqrt":
+        def g(x):
+            y = f(x)
+            if sym._CTX is not None:  # the two facts about sqrt the proofs use, instantiated at the term
+                sym._CTX.add_axiom(z3.Implies(x >= 0, z3.And(y * y == x, y >= 0)))
+            return y
+        return g
     return lambda x: f(x)
 
 
